@@ -154,11 +154,19 @@ func Run(r *ev.Run) {
 		MySQLLayer(r)
 	}
 	r.RequireSetAtLeast("policies_observed", 3)
+	r.RequireAtLeast("sessions_on_database_with_bytea_output_escape", 5)
 }
 
 func session(r *ev.Run, rng *gen.Rand, sidx int) {
 	tables := []proxyrig.TableSpec{genTable(rng, "tt1")}
-	w, ac, rc, closeAll, ok := c04.OpenWorld(r, tables, "")
+	// every third session runs against a database with bytea_output = escape (typed columns are physically bytea: their text
+	// results then arrive in the escape spelling); the reference keeps hex, fields are compared by value
+	byteaOut := ""
+	if sidx%3 == 2 {
+		byteaOut = "escape"
+		r.Count("sessions_on_database_with_bytea_output_escape", 1)
+	}
+	w, ac, rc, closeAll, ok := c04.OpenWorldOn(r, tables, "", byteaOut)
 	if !ok {
 		return
 	}
@@ -380,12 +388,12 @@ func checkReader(r *ev.Run, w *c04.World, c *proxyrig.PGClient, t proxyrig.Table
 				case !unrevealable(ri):
 					// owner reading an undamaged row: must equal the reference value in the declared encoding
 					want, err := encodeDeclared(col.DataType, plainOf(rrows[ri][ci]), binFmt)
-					if err == nil && !bytes.Equal(got, want) {
+					if err == nil && !sameField(got, want, col.DataType, binFmt) {
 						r.Violation(sig("undamaged value not revealed in the declared type"), detail(map[string]interface{}{"row": ri, "got": ev.Hex(got), "want": ev.Hex(want)}))
 					}
 				case pol == "ciphertext":
 					hexForm := []byte(`\x` + hex.EncodeToString(svb))
-					if !bytes.Equal(got, svb) && !bytes.Equal(got, hexForm) {
+					if !bytes.Equal(got, svb) && !bytes.Equal(got, hexForm) && !(!binFmt && sameBytea(got, svb)) {
 						what := "policy ciphertext: delivered field is not the stored ciphertext"
 						if leaks(got, plainOf(rrows[ri][ci])) {
 							what = "policy ciphertext: plaintext (partly) delivered"
@@ -400,7 +408,7 @@ func checkReader(r *ev.Run, w *c04.World, c *proxyrig.PGClient, t proxyrig.Table
 					if err != nil {
 						continue
 					}
-					if !bytes.Equal(got, want) {
+					if !sameField(got, want, col.DataType, binFmt) {
 						r.Violation(sig("policy default_value: delivered field is not the configured default in the declared type"), detail(map[string]interface{}{"row": ri, "got": ev.Hex(got), "want": ev.Hex(want), "default": *col.Default}))
 					} else {
 						r.Count("policy_fields_checked", 1)
@@ -529,14 +537,14 @@ func checkColumns(r *ev.Run, w *c04.World, c *proxyrig.PGClient, t proxyrig.Tabl
 					// judged by the single-column reads
 				case !unrevealable(ri, ci):
 					want, err := encodeDeclared(col.DataType, plainOf(rrows[ri][ci]), binFmt)
-					if err == nil && !bytes.Equal(got, want) {
+					if err == nil && !sameField(got, want, col.DataType, binFmt) {
 						r.Violation(sig("undamaged value not revealed in the declared type"), fd(map[string]interface{}{"got": ev.Hex(got), "want": ev.Hex(want)}))
 					} else if err == nil {
 						r.Count("mixed_fields_revealed", 1)
 					}
 				case pol == "ciphertext":
 					hexForm := []byte(`\x` + hex.EncodeToString(svb))
-					if !bytes.Equal(got, svb) && !bytes.Equal(got, hexForm) {
+					if !bytes.Equal(got, svb) && !bytes.Equal(got, hexForm) && !(!binFmt && sameBytea(got, svb)) {
 						what := "policy ciphertext: delivered field is not the stored ciphertext"
 						if leaks(got, plainOf(rrows[ri][ci])) {
 							what = "policy ciphertext: plaintext (partly) delivered"
@@ -551,7 +559,7 @@ func checkColumns(r *ev.Run, w *c04.World, c *proxyrig.PGClient, t proxyrig.Tabl
 					if err != nil {
 						continue
 					}
-					if !bytes.Equal(got, want) {
+					if !sameField(got, want, col.DataType, binFmt) {
 						r.Violation(sig("policy default_value: delivered field is not the configured default in the declared type"), fd(map[string]interface{}{"got": ev.Hex(got), "want": ev.Hex(want), "default": *col.Default}))
 					} else {
 						r.Count("policy_fields_checked", 1)
@@ -561,6 +569,26 @@ func checkColumns(r *ev.Run, w *c04.World, c *proxyrig.PGClient, t proxyrig.Tabl
 			}
 		}
 	}
+}
+
+// sameField compares a delivered field with the expected one; a bytea value in text format may be spelled in the hex or in the
+// escape format (bytea_output of the database): the values are compared, not the spellings.
+func sameField(got, want []byte, typ string, binFmt bool) bool {
+	if bytes.Equal(got, want) {
+		return true
+	}
+	if typ != "bytes" || binFmt {
+		return false
+	}
+	a, errA := fakepg.DecodeByteaText(string(got))
+	b, errB := fakepg.DecodeByteaText(string(want))
+	return errA == nil && errB == nil && bytes.Equal(a, b)
+}
+
+// sameBytea reports whether a text-format bytea field spells the given bytes (hex or escape format).
+func sameBytea(got, raw []byte) bool {
+	a, err := fakepg.DecodeByteaText(string(got))
+	return err == nil && bytes.Equal(a, raw)
 }
 
 func plainOf(v fakepg.Value) []byte {
